@@ -9,15 +9,17 @@ so the effect of a command list is determined per slot by the last command on th
 interleaving with other slots, and two levels with the same map have the same lines.  Together with
 C08 (the sort keeps the removal of a slot before its re-creation and only permutes) this is the
 algebra convergence rests on.  The end-to-end statement `applyCmds (cmdPaths (patch old new)) old ≃ new`
-is PROVED for flat configurations over the default/undo_redo logics (`C01_flat_converges`, stage 1); for
-nested blocks, `%ordered`/`%rewrite` rules and chains it is decided on every generated case by the
-correspondence check and the simulator oracle, not by a theorem (status: partial).  The full-strength statement is false of the code for the logics that
+is PROVED for flat configurations (`C01_flat_converges`, stage 1) and for configurations of any depth at
+the level of the patch tree (`C01_nested_converges`, stage 2) over the default/undo_redo logics; for
+`%ordered`/`%rewrite`/`%global` rules, the formatter's linearisation and chains it is decided on every
+generated case by the correspondence check and the simulator oracle, not by a theorem (status: partial).  The full-strength statement is false of the code for the logics that
 deliberately emit nothing (`permanent`, `ignore_changes`) and in the corner cases F01c–F01g; the two
 by-design ones are kernel-checked witnesses below.
 -/
 import AnnetModel.Lemmas.Device
 import AnnetModel.Lemmas.Converge
 import AnnetModel.Lemmas.ConvergeExample
+import AnnetModel.Lemmas.ConvergeNested
 
 /-! OBLIGATIONS
 Annet.Device.C01_put_refines
@@ -30,6 +32,7 @@ Annet.Device.C01_cmds_refine
 Annet.Device.C01_flat_converges
 Annet.Device.C01_flat_converges_lines
 Annet.Device.C01_flat_converges_nonvacuous
+Annet.Device.C01_nested_converges
 Annet.Device.C01_full_false_permanent
 Annet.Device.C01_full_false_ignore_changes
 Annet.Device.C01_flat_default_witness_converges
@@ -157,6 +160,27 @@ theorem C01_flat_converges_nonvacuous :
       (rowsOf (applyCmds Converge.Example.env Converge.Example.rules (flatPaths r.patch) Converge.Example.old)).Perm
         (rowsOf Converge.Example.new) :=
   Converge.Example.flat_converges_instance'
+
+/-! ### end-to-end convergence, stage 2: configurations of any depth
+
+For a rulebook of ANY DEPTH over the `default` / `undo_redo` logics (no `%global` rules, pairwise distinct
+rule texts at every level), any ordering rulebook without `%order_reverse` pins, a vendor whose removal
+commands the device understands at every level, and configurations of any depth whose lines instantiate
+exactly one rule at their level with one line per (rule, key): executing the PATCH TREE the pipeline
+computes (`ConvergeNested.applyTree`: a leaf item is a leaf command, a block item enters — creating if
+absent — the block and executes its children there) on `old` yields, at every level of every block,
+exactly the lines `new` holds (`SameC`).  2675 lines of proof in `Lemmas/ConvergeNested*.lean`.
+What is still decided by the tie and the oracle only: the formatter's linearisation of the patch tree into
+command paths with exit words (C09 proves text = paths; `Device.execPath` on those paths is checked against
+`applyTree` by the correspondence), `%ordered` / `%rewrite` / `%global` rules, and chains. -/
+
+theorem C01_nested_converges (v : Vendor) (env : Env) (rules : PRules) (ordering : List ORule) (old new : Cfg)
+    (r : Api.Result)
+    (hr : ConvergeNested.NestedRules rules) (hgo : ConvergeNested.GoodC rules old) (hgn : ConvergeNested.GoodC rules new)
+    (hc : ConvergeNested.CmdsOKAll v env rules) (hp : Converge.NoPin ordering)
+    (hres : Api.deviceMode Patch.runLogic v rules ordering true old new = .ok r) :
+    ConvergeNested.SameC rules (.mk (ConvergeNested.applyTree env rules r.patch old.kids)) new :=
+  ConvergeNested.Lemmas.nested_converges v env rules ordering old new r hr hgo hgn hc hp hres
 
 /-! ### the full-strength statement is false by design for `permanent` and `ignore_changes` -/
 
